@@ -333,6 +333,30 @@ GPM_LIFTS = {
         ObjCall("topo", "topo_"),
     ]),
 }
+# ---- affinity_data::init, the bind branch: cleared masks in, "accepted => every worker bound" out ----
+LOOP_CI = ("__CPROVER_assigns(vx_it, count, g_o_mask)\n"
+           "__CPROVER_loop_invariant(vx_it <= masks->size && count <= vx_it && ((g_k < vx_it && g_k_mask.kind == MK_EMPTY) ==> count < vx_it))")
+LOOP_BB = "__CPROVER_assigns(i)\n__CPROVER_loop_invariant(i <= self->num_threads_)"
+INIT_UNITS = [
+    Unit("init.count_initialized", "initbind.c", defines=["U_COUNT_INITIALIZED"], enforce="count_initialized",
+         lifts={"count_initialized": Lift(AD, r"inline std::size_t count_initialized\(", rules=[
+             Sub(r"for \(threads::detail::mask_cref_type (\w+) : (\w+)\)\s*\{",
+                 r"for (size_t vx_it = 0; vx_it != \2->size; ++vx_it) { struct mask \1 = ro_at(\2, vx_it);", 1),
+             Sub(r"threads::detail::any\(", "mask_any(", None)], loops={1: LOOP_CI, "count": 1})},
+         funcs=[AD + ": count_initialized"], min_obligations=8, solver=["--sat-solver", "cadical"]),
+    Unit("init.bind_branch", "initbind.c", defines=["U_BIND_BRANCH"], enforce="init_bind_branch",
+         lifts={"bind_branch": Lift(AD, r"else if \(!affinity_description\.empty\(\)\)", rules=[
+             Sub(r"\baffinity_masks_\.clear\(\);", "masks_clear(self);", None),
+             Call(r"\baffinity_masks_\.resize", "masks_resize(self, {0}, {1})", None),
+             Sub(r"threads::detail::mask_type\s*\{\s*\}", "mask_default()", None),
+             Sub(r"threads::detail::resize\(affinity_masks_\[([^\]]+)\],\s*([^;]+)\);", r"mask_resize_at(self, \1, \2);", None),
+             Call(r"(?<![\w.>])parse_affinity_options(?!\s*\(\s*[^,]*,\s*self\b)", "parse_affinity_options({0}, self, {2}, {3}, {4}, {6}); if (g_thrown) return", 1),
+             Sub(r"count_initialized\(affinity_masks_\)", "count_initialized_c(self)", None),
+             Call(r"PIKA_THROW_EXCEPTION", "{{ g_thrown = true; return; }}", None),
+             Members(["num_threads_", "use_process_mask_"])], loops={1: LOOP_BB, "count": 1})},
+         funcs=[AD + ": affinity_data::init (the branch for a non-empty, non-`none` bind description)"], min_obligations=10, solver=["--sat-solver", "cadical"]),
+]
+
 NONE_UNITS = [
     Unit("none.init_branch", "none.c", defines=["U_NONE_BRANCH"], enforce="init_none_branch", lifts=NONE_LIFTS,
          funcs=[AD + ": affinity_data::init (the `none` branch)", AD_HPP + ": affinity_data::get_pu_num(num_thread)"], min_obligations=10),
@@ -388,7 +412,7 @@ UNITS = [
          lifts={"dist_enum": Lift(PAO_HPP, r"enum distribution_type", fragment_end=r"\};", rules=[]),
                 "body": Lift(PAO, r"void decode_distribution\(", rules=[Call(r"\baffinities\.resize", "maskvec_resize(affinities, {0})", None)])},
          funcs=[PAO + ": decode_distribution"], min_obligations=10),
-] + NONE_UNITS + [
+] + NONE_UNITS + INIT_UNITS + [
     Unit("pu_in_process_mask", "decoders.c", defines=["U_PIM"], enforce="pu_in_process_mask", lifts=dict(HELPERS),
          funcs=[PAO + ": pu_in_process_mask"], min_obligations=3),
     Unit("check_num_threads", "decoders.c", defines=["U_CNT"], enforce="check_num_threads", lifts=dict(HELPERS),
@@ -462,7 +486,6 @@ META = {
         "CaDiCaL instead of MiniSat for decode.numa_balanced.workers (same CBMC, --sat-solver cadical)",
     ],
     "assumptions": [
-        "decoders are called with cleared masks (affinity_data::init resizes affinity_masks_ with mask_type{} before parse_affinity_options)",
         "none.lemma: with --pika:bind the command line forbids --pika:pu-offset / --pika:pu-step (command_line_handling.cpp:378-385), so "
         "pu_offset_ == 0, pu_step_ == 1; with num_threads <= hardware concurrency the cached PU number of worker k is then k (proved for "
         "get_pu_num(i, hc) by none.get_pu_num_default; that init_cached_pu_nums stores exactly these values is read off the code, not lifted).  Without that, init's `none` branch sets bit get_pu_num(i) while get_pu_mask tests bit global_thread_num",
@@ -470,7 +493,7 @@ META = {
         "decode_distribution: d is one of the four enumerators (parse_mappings produces nothing else)",
     ],
     "not_decided": [
-        "distinctness ('two workers never share a PU') and completeness ('all workers assigned') for unbounded machines: they need 'no second sweep "
+        "distinctness ('two workers never share a PU') and completeness INSIDE the decoders ('all workers assigned'; for ACCEPTED configurations it follows unboundedly from init.bind_branch: init throws unless every worker's mask is non-empty) for unbounded machines: they need 'no second sweep "
         "over the cores', i.e. sum over all (core, pu) of pu_in_process_mask >= num_threads -- a sum over an uninterpreted function that the victim "
         "ghosts cannot express; decided only by the bounded.* stand-ins (<= 2 sockets x <= 3 cores x <= 2 PUs)",
         "termination of the decoders (an empty effective mask with num_threads >= 1 and ec != throws loops forever; bounded units use ec == throws)",
